@@ -255,6 +255,73 @@ def refresh_loop_model(ctx, repo, rule):
            sample={"rule": rule, "passes": st["pass"], "refreshed": st["refreshed"]})
 
 
+def driver_follows_spa_info(ctx, repo, rule):
+    from ..absint import Native, Obj, Opaque, PyRaise, Undecided
+    from ..managermodel import Manager, MAN, STATE
+    # the driver: the coroutine started under the manager's own key (R1's role lookup)
+    pump = repo.method(MAN, "_sequence_pump", required=False)
+    if pump is None:
+        cands = [f for f in repo.all_methods(MAN).values() if f.is_async and any(isinstance(n, ast.While) for n in ast.walk(f.node))
+                 and any(isinstance(n, ast.Call) and call_name(n) == "async_connect" for n in ast.walk(f.node))]
+        if len(cands) != 1:
+            raise AnalysisError(f"{MAN}: the reconnect driver (a coroutine with a loop that calls async_connect) was not identified ({[c.qual for c in cands]})")
+        pump = cands[0]
+    m = Manager(repo, kwargs={"spa_identifier": "SPA-OLD", "spa_name": "My spa", "spa_address": "10.0.0.5"})
+    m.put("IDLE", facade=False, spa=False, descriptors=False)
+    calls = []
+    st = {"sleeps": 0, "changed": False}
+
+    def locate(a, k):
+        calls.append(("locate", st["sleeps"], tuple(a), dict(k)))
+        m.it.setattr(m.obj, "_spa_descriptors", [])
+        m.it.setattr(m.obj, "_spa_state", m.member(STATE, "LOCATED_SPAS"))
+
+    def connect(a, k):
+        calls.append(("connect", st["sleeps"], tuple(a), dict(k)))
+    m.obj.attrs["async_locate_spas"] = Native(locate, "async_locate_spas")
+    m.obj.attrs["async_connect"] = Native(connect, "async_connect")
+    inner = m.it.call_hook
+
+    def hook(it, node, callee, args, kwargs):
+        if getattr(callee, "name", "") == "asyncio.sleep" and not st.get("inside"):
+            st["sleeps"] += 1
+            if st["sleeps"] == 1:
+                st["inside"] = True
+                try:
+                    it.call(repo.method(MAN, "async_set_spa_info"), m.obj, ["10.0.0.77", "SPA-NEW", "My spa"])
+                finally:
+                    st["inside"] = False
+                st["changed"] = True
+                return None
+            if st["sleeps"] >= 3:
+                raise PyRaise("asyncio.CancelledError", node)
+            return None
+        return inner(it, node, callee, args, kwargs)
+    m.it.call_hook = hook
+    try:
+        m.it.steps = 0
+        m.it.call(pump, m.obj, [])
+    except PyRaise as e:
+        if "CancelledError" not in e.what:
+            raise AnalysisError(f"{pump.qual} on the manager model raises {e.what}")
+    except Undecided as e:
+        raise AnalysisError(f"{pump.qual} on the manager model: {e}")
+    first = [c for c in calls if c[1] == 0]
+    later = [c for c in calls if c[1] >= 1]
+
+    def vals(c):
+        return [x for x in list(c[2]) + list(c[3].values()) if isinstance(x, str)]
+    ok_first = any(c[0] == "locate" and "10.0.0.5" in vals(c) for c in first) and any(c[0] == "connect" and "SPA-OLD" in vals(c) for c in first)
+    if not ok_first or not st["changed"]:
+        raise AnalysisError(f"{pump.qual} on the manager model: the first pass did not locate and connect with the configured values ({calls[:4]}) - scenario not applicable")
+    stale = [c for c in later if "10.0.0.5" in vals(c) or "SPA-OLD" in vals(c)]
+    fresh = any(c[0] == "locate" and "10.0.0.77" in vals(c) for c in later) and any(c[0] == "connect" and "SPA-NEW" in vals(c) and "10.0.0.77" in vals(c) for c in later)
+    ctx.ob(rule, f"{pump.qual}::follows-set-spa-info", fresh and not stale,
+           f"{pump.qual}: after async_set_spa_info('10.0.0.77', 'SPA-NEW', ...) between two passes, the next pass calls {[(c[0], vals(c)) for c in later]} - expected a locate at 10.0.0.77 and a connect to SPA-NEW there: "
+           f"the driver keeps using the address / identifier it read when it was started", pump.loc,
+           sample={"rule": rule, "first_pass": [(c[0], vals(c)) for c in first], "after_set_spa_info": [(c[0], vals(c)) for c in later]})
+
+
 def check(ctx):
     repo = Repo()
     cg = callgraph(repo)
@@ -465,5 +532,7 @@ def check(ctx):
     from ..handlermodel import armed_under_every_table
     armed_under_every_table(ctx, repo, "R9", only=("GeckoPingProtocolHandler", "GeckoStatusBlockProtocolHandler", "GeckoWatercareProtocolHandler", "GeckoRemindersProtocolHandler"),
                             why=" - the ping loop dies and an unreachable spa is never reported")
+    ctx.rule("R10", "set-spa-info reaches the driver: the reconnect driver, interpreted for two passes on the manager model with the real async_set_spa_info (new address, new identifier) called between them, locates and connects in the second pass with the NEW address and identifier - a driver that read them once before its loop keeps looking for the spa where it no longer is: SPA_NOT_FOUND, a state nothing leaves")
+    driver_follows_spa_info(ctx, repo, "R10")
     ctx.note("NOT decided (the headline of the property): that recovery happens, within what time, after which fault scripts; that the facade's values mirror the spa afterwards. States that are terminal by design (CONNECTING after 'cannot find spa pack') are not flagged.")
     ctx.assume("a ping loop exists in the states named by the ping-received row (a connection was established before the error)")
